@@ -4,8 +4,8 @@ E: every AST with <= 1 operator over a boundary-value leaf set, and every AST wi
 (both tree shapes, every ordered pair of binary operators; unary-in-binary; ?: mixed with
 binary; nested ?:) over small leaf subsets.  Each AST is evaluated directly by the reference
 (no reference parser), printed with only the parentheses C requires, and handed to the real
-Lexer -> MacroExpander -> ExpressionEvaluator; the truth value of `E` and of `(E) == V`
-(V = reference value, spelled in E's type) must be what C says.
+Lexer -> MacroExpander -> ExpressionEvaluator; the truth value of `E`, of `(E) == V`
+(V = reference value, spelled in E's type) and of `(E) < 0` (signedness of the result) must be what C says.
 Also: the same expressions through the whole pipeline (FileParser + finder.find), and the
 clause "an #elif of a chain that already selected a branch is not evaluated".
 Ground truth cross-check: gcc -E in batch on every enumerated expression (thorough) or on
@@ -136,6 +136,12 @@ def judge(ast, full=False):
     got2 = cbi_truth(t2)
     if got2 is not True:
         out.append(("value", f"{v}{'u' if u else ''}", got2 if not isinstance(got2, tuple) else got2[1], t2))
+        return out
+    # == converts both sides to a common type, so it cannot see a wrong signedness of the result: `(E) < 0` can
+    t3 = f"( {t} ) < 0"
+    got3 = cbi_truth(t3)
+    if got3 is not (v < 0 and not u):
+        out.append(("type", f"{'unsigned' if u else 'signed'} {v}: ( E ) < 0 is {v < 0 and not u}", got3 if not isinstance(got3, tuple) else got3[1], t3))
     return out
 
 
